@@ -355,10 +355,16 @@ class Exec:
                 raise Unmodelled(f'field {n} of {v!r}')
             if isinstance(v, VarView):
                 o = v.sym.get_ov(('v', v.variant, n))
-                return o if o is not None else self.fresh(f'{v.sym.name}@{v.variant}.{n}', ty)
+                if o is not None:
+                    return o
+                c = self.fresh(f'{v.sym.name}@{v.variant}.{n}', ty)
+                return c.with_ov('from', ('proj', (v.sym,))) if isinstance(c, Sym) and v.sym.get_ov('from') is not None else c
             if isinstance(v, Sym):
                 o = v.get_ov(('f', n))
-                return o if o is not None else self.fresh(f'{v.name}.{n}', ty)
+                if o is not None:
+                    return o
+                c = self.fresh(f'{v.name}.{n}', ty)
+                return c.with_ov('from', ('proj', (v,))) if isinstance(c, Sym) and v.get_ov('from') is not None else c
             if isinstance(v, Ptr):
                 # field of a fat pointer / Pin newtype represented directly as Ptr
                 if n == 0:
@@ -540,6 +546,9 @@ class Exec:
         m = re.fullmatch(r"'(.)'", t)
         if m:
             return z3.BitVecVal(ord(m.group(1)), 32)
+        ma = re.fullmatch(r'\{(alloc\d+): (.*)\}', t)
+        if ma and ma.group(1) in getattr(self.prog, 'allocs', {}):
+            return Const(f'static {self.prog.allocs[ma.group(1)]}: {ma.group(2)}')
         # constants / statics / promoteds with a MIR body: evaluate the body
         cf = self.find_const_fn(t)
         if cf is not None and frame is not None and getattr(self, '_const_depth', 0) < 4:
